@@ -528,6 +528,15 @@ pub fn group(ctx: &Ctx, g: u64) -> Vec<Case> {
             }
           }
         }
+        // servers with a puncture history (all 256 tags registered; see exec::punctured_server):
+        // every tag, punctured or not, asked for by a client
+        for hist in 0..crate::exec::PUNCTURE_HISTORIES.len() as u64 {
+          for md in 0..=255u8 {
+            let ver = (md as u64 + hist) & 1;
+            let p = if md % 3 == 0 { bp.as_bytes().to_vec() } else { points[(md as usize) % points.len()].clone() };
+            out.push(Case { target: Target::ServerEval, desc: format!("md={} verifiable={} (server after puncture history {})", md, ver, hist), blobs: vec![p], num: md as u64 | ver << 8 | (hist + 1) << 10 });
+          }
+        }
         if let Some(ev) = honest {
           let proof = ev.proof.as_ref().unwrap().serialize_to_bincode().unwrap_or_default();
           let outp = ev.output.as_bytes().to_vec();
